@@ -71,7 +71,13 @@ struct SendPtr<T>(T);
 unsafe impl<T> Send for SendPtr<T> {}
 
 /// Run both halves in the order the installed script dictates for the current path.
-pub fn join<A: FnOnce(), B: FnOnce()>(_use_tbb: bool, left: A, right: B) {
+pub fn join<A: FnOnce(), B: FnOnce()>(use_tbb: bool, left: A, right: B) {
+    if !use_tbb {
+        // blake3_tbb.cpp: without use_tbb the two halves run serially, left first
+        left();
+        right();
+        return;
+    }
     let cur = CUR.with(|c| *c.borrow());
     let (script, path, depth) = match cur {
         Some(x) => x,
